@@ -442,7 +442,8 @@ PIPELINES["C07"] = _dist("C07")
 # ---------------------------------------------------------------------------------------------------
 # goroutine protocols: exhaustive model checking, validation of free-running hook logs, race detector
 # ---------------------------------------------------------------------------------------------------
-CONC_INVS = {"Trace_Conc": ["NoRaceOnErr", "NoRaceOnCells", "MutexOK", "ErrorReturned", "Determinate", "OneResultPerPair"]}
+CONC_INVS = {"Trace_Conc": ["NoRaceOnErr", "NoRaceOnCells", "MutexOK", "ErrorReturned", "Determinate", "OneResultPerPair"],
+             "Trace_PhaseConc": ["NoSendAfterClose", "OneResultEach", "NoDuplicate", "ErrorDelivered", "ErrorSeen"]}
 
 
 def conc_validate(work, v, module, trace, what, consts):
@@ -492,7 +493,7 @@ def race_run(work, v, family, n, seed, what, procs=(1, 2, 4, 16)):
     for gp in procs:
         logp = work.fresh("race", "")
         out = work.fresh("racetrace", ".ndjson")
-        env = {"GORACE": "log_path=%s halt_on_error=0 exitcode=0" % logp, "GOMAXPROCS": str(gp)}
+        env = {"GORACE": "log_path=%s halt_on_error=0 exitcode=0" % logp, "GOMAXPROCS": str(gp), "VERIF_NOHOOK": "1"}
         vf.drive(work, family, n=n, seed=seed + gp, driver=drv, out=out, env=env, timeout=1800)
         total += sum(1 for _ in open(out))
         reports = ""
@@ -608,3 +609,33 @@ def _c17(work, v, tier, seed):
 
 
 PIPELINES["C17"] = _c17
+
+
+def phase_account(v, trace, res):
+    simple_account(v, trace, res, "phase", "Trace_Phase", key=lambda e: {k: e.get(k) for k in ("t", "seqs", "refs", "o", "cpus", "reverse")},
+                   sample=lambda e: {"event": e["t"], "reads": len(e["seqs"]), "references": len(e.get("refs", [])), "options": e.get("o"), "workers": e.get("cpus"), "outcome": e.get("kind")},
+                   describe=lambda e: {"event": e["t"], "seqs": [_s(x) for x in e["seqs"]], "refs": [_s(x) for x in e.get("refs", [])], "o": e.get("o"), "cpus": e.get("cpus"),
+                                       "msg": e.get("msg", ""), "results": [{k: (_s(r[k]) if k in ("nt", "codon", "aa") else r[k]) for k in r} for r in e.get("results", [])][:6]})
+
+
+def _c16(work, v, tier, seed):
+    vf.build_driver(work)
+    q = tier == "quick"
+    cfg = write_cfg(work, "MC_PhaseConc_%s.cfg" % tier, spec="Spec", props=["StreamClosed", "FeederFinishes"],
+                    invariants=["NoSendAfterClose", "OneResultEach", "NoDuplicate", "ErrorDelivered", "ErrorSeen"],
+                    constants={"MaxSeqs": 3 if q else 4, "MaxWorkers": 2 if q else 3, "SignalOnFail": "TRUE"})
+    v.add_mc(vf.tlc_mc(work, "MC_PhaseConc", cfg, workers=8, timeout=3000), "mc:PhaseConc")
+    cfg2 = write_cfg(work, "MC_PhaseConc_sanity.cfg", spec="Spec", props=["StreamClosed"], constants={"MaxSeqs": 2, "MaxWorkers": 2, "SignalOnFail": "FALSE"})
+    r = vf.run_tlc(work, "MC_PhaseConc", cfg2, workers=4, timeout=600)
+    if "StreamClosed" not in r.out or "violated" not in r.out:
+        raise vf.ToolingError("sanity: a worker that forgets the WaitGroup on its error path should violate StreamClosed")
+    trace = vf.drive(work, "phase", n=35 if q else 1200, seed=seed, tier=tier, timeout=3000)
+    res = vf.tlc_trace(work, "Trace_Phase", trace, cfg=write_cfg(work, "Trace_Phase.cfg", invariants=["Done"]), timeout=3000)
+    phase_account(v, trace, res)
+    trace = vf.drive(work, "phconc", n=40 if q else 400, seed=seed, tier=tier, timeout=3000)
+    conc_validate(work, v, "Trace_PhaseConc", trace, "Phase protocol", {"SignalOnFail": "TRUE"})
+    race_run(work, v, "phconc", 30 if q else 300, seed, "Phase", procs=(1, 4, 16) if q else (1, 2, 4, 8, 16))
+    v.assumptions += ["TLC and the CommunityModules evaluate TLA+ correctly", "the Go race detector reports every unordered conflicting access that occurs"]
+
+
+PIPELINES["C16"] = _c16
